@@ -195,6 +195,7 @@ func H_Label() {
 			raw, rawErr = bpf.Assemble(prog)
 		}
 	})
+	vAssert(code != 4, "C06.terminates")
 	vAssert(code == 0, "C06.nopanic")
 	if code != 0 {
 		return
